@@ -575,6 +575,29 @@ fn main() {
             }
         }
     }
+    // S4 races two real OS threads (a smoke schedule; the controlled racing schedules are shuttle's): what it finds
+    // is real but whether a re-execution shows it again is up to the machine. A replay of an S4 finding therefore
+    // re-runs that schedule until the mismatch shows (at most 40 times).
+    if args.get(1).map(|s| s.as_str()) == Some("replay") && violation.is_none() {
+        let v = simcore::read_json(std::path::Path::new(args.get(2).map(|s| s.as_str()).unwrap_or("")));
+        if v["scenario"]["schedule"].as_str() == Some("S4_two_os_threads_race") {
+            for _ in 0..40 {
+                if let Ok(r) = in_child(|| {
+                    let (checks, mism) = schedule("S4_two_os_threads_race", &public, &school, thorough);
+                    json!({"checks": checks, "mismatches": mism})
+                }) {
+                    if let Some(p) = r.get("panic") {
+                        violation = Some(("S4_two_os_threads_race".to_string(), format!("panic: {p}")));
+                    } else if let Some(m) = r["mismatches"].as_array().and_then(|a| a.first()) {
+                        violation = Some(("S4_two_os_threads_race".to_string(), m.as_str().unwrap_or("").to_string()));
+                    }
+                }
+                if violation.is_some() {
+                    break;
+                }
+            }
+        }
+    }
     let wall = t0.elapsed().as_secs_f64();
     let mut exit = 0;
     let mut replays = vec![];
@@ -584,6 +607,9 @@ fn main() {
         println!("VIOLATION property=C10 replay={}", path.display());
         println!("  class=holiday_data_mismatch schedule={sched}");
         println!("  detail: {detail}");
+        if sched == "S4_two_os_threads_race" {
+            println!("  note: found by the smoke schedule that races two real OS threads; the controlled (replayable) racing schedules are the shuttle part's");
+        }
         replays.push(path.display().to_string());
         exit = 1;
     }
